@@ -19,7 +19,9 @@ pub const ENTRY: Entry = Entry {
            {send_command(c, |args| in 0..=18), send_pixels(k pixels, k in 0..=3*cap+2), send_repeated_pixel(p, count in 0..=3*cap+2) for two \
            pixel values}, consecutive calls using disjoint byte alphabets so stale buffer content is visible; plus all pairs of pixel calls over ONE alphabet and all fill / stream-starting-with-the-fill-colour / fill triples (equal bytes in different calls, for cached-buffer mistakes). Every history is \
            prefixed by a RAMWR command. Oracle: concatenated written bytes == instruction, parameters, pixel bytes in order; DC low \
-           for exactly the instruction byte; transactions within the termination budget; Ok. Non-trivial = histories with >= 2 calls.",
+           for exactly the instruction byte; transactions within the termination budget; Ok. Non-trivial = histories with >= 2 calls. Post-fault leg: (call a with its k-th DC/SPI operation \
+           failing once, every k) ; RAMWR ; (every call b): b and the recovery command must again deliver exactly their own bytes; \
+           and fill ; (stream starting with the fill colour | other stream | fill, k-th operation failing) ; RAMWR ; fill.",
     assumptions: &["a failed or zero-length SPI write delivers nothing", "the buffer is the transport's only state, so depth 2-3 with adversarial previous content covers any history"],
     run,
 };
@@ -65,13 +67,22 @@ pub struct HistObs {
     pub fail: Option<(String, String)>,
     pub txns: Vec<u64>,
     pub bytes: Vec<u64>,
+    /// the injected fault fired (post-fault histories)
+    pub fired: bool,
 }
 
 /// run one history on a fresh SpiInterface; the first failing call is reported
 pub fn run_history(n: usize, l: usize, hist: &[TCall]) -> HistObs {
+    run_history_fault(n, l, hist, None)
+}
+
+/// `fault = (call index, k)`: the k-th low-level operation (DC pin write or SPI transaction) of that call fails once.
+/// The failed call itself is not judged here (C12 does that); every later call of the history must again put exactly
+/// its own bytes on the bus.
+pub fn run_history_fault(n: usize, l: usize, hist: &[TCall], fault: Option<(usize, u64)>) -> HistObs {
     let mut t = TRig::spi(l, 0xEE);
     let usable = (l / n) * n;
-    let mut obs = HistObs { fail: None, txns: vec![], bytes: vec![] };
+    let mut obs = HistObs { fail: None, txns: vec![], bytes: vec![], fired: false };
     // preamble: memory-write-start
     let pre = TCall::Cmd { op: 0x2C, args: vec![] };
     let _ = t.call(&pre);
@@ -87,10 +98,27 @@ pub fn run_history(n: usize, l: usize, hist: &[TCall]) -> HistObs {
             b.ops
         };
         let ev0 = t.bd.borrow().evs.len();
+        let faulted = matches!(fault, Some((fi, _)) if fi == i);
+        if let Some((_, k)) = fault.filter(|_| faulted) {
+            t.bd.borrow_mut().faults = vec![Fault { at: ops0 + k, mode: FaultMode::Unchanged }];
+        }
         let out = t.call(c);
         t.bd.borrow_mut().budget = u64::MAX;
-        let _ = ops0;
         let got = t.latched();
+        if faulted {
+            let mut b = t.bd.borrow_mut();
+            b.faults.clear();
+            if !b.failed_ops.is_empty() {
+                obs.fired = true;
+                obs.txns.push(0);
+                obs.bytes.push(got.len() as u64);
+                if let Outcome::Panic(m) | Outcome::NonTermination(m) = out {
+                    obs.fail = Some(("failed-call/panic-or-non-termination".into(), format!("call #{i} with its operation {} failing: {m}", fault.unwrap().1)));
+                    return obs;
+                }
+                continue;
+            }
+        }
         let ntx = t.bd.borrow().evs[ev0..].iter().filter(|e| matches!(e, Ev::SpiWrite { first: true, .. } | Ev::SpiEmptyTxn { .. })).count() as u64;
         obs.txns.push(ntx);
         obs.bytes.push(nbytes);
@@ -107,7 +135,8 @@ pub fn run_history(n: usize, l: usize, hist: &[TCall]) -> HistObs {
                 }
             }
         };
-        let fail = |kind: &str, msg: String| Some((format!("{name}/{kind}"), format!("call #{i}: {msg}")));
+        let after = if matches!(fault, Some((fi, _)) if fi < i) { "/after-failed-call" } else { "" };
+        let fail = |kind: &str, msg: String| Some((format!("{name}/{kind}{after}"), format!("call #{i}: {msg}")));
         match out {
             Outcome::Ok => {}
             Outcome::NonTermination(m) => {
@@ -268,6 +297,96 @@ fn run(ctx: &Ctx) -> Part {
                     }
                 }
             }
+            // post-fault histories: call a with its k-th low-level operation failing (every k), a recovery
+            // command, then every call b of the next alphabet and every same-alphabet pixel call: b's bytes must be
+            // exactly b's (a staging buffer or fill cache left over from the aborted call must not leak)
+            let rec = TCall::Cmd { op: 0x2C, args: vec![] };
+            let bs: Vec<TCall> = a1.iter().cloned().chain(pix0.iter().map(|c| (*c).clone())).chain(mixed.iter().cloned()).collect();
+            let fault_as: Vec<&TCall> = if quick && l > 4 * n + 1 {
+                a0.iter().filter(|c| c.n_expected() <= (2 * l + 2) as u64).collect()
+            } else {
+                a0.iter().collect()
+            };
+            for a in fault_as {
+                for k in 0..64u64 {
+                    let mut fired = false;
+                    for b in &bs {
+                        let hist = [a.clone(), rec.clone(), b.clone()];
+                        acc.evaluations += 1;
+                        acc.transitions += 3;
+                        acc.traces += 1;
+                        let o = run_history_fault(n, l, &hist, Some((0, k)));
+                        if !o.fired {
+                            break;
+                        }
+                        fired = true;
+                        acc.nontrivial += 1;
+                        acc.count("post_fault_histories", 1);
+                        let mut h = crate::util::Fnv::new();
+                        h.u64(k);
+                        for b in &o.bytes {
+                            h.u64(*b);
+                        }
+                        acc.outcome(h.finish());
+                        if let Some((sig, msg)) = o.fail {
+                            acc.violation(Violation {
+                                prop: ctx.prop.clone(),
+                                sig,
+                                msg,
+                                case: json!({"kind": "c06", "variant": ctx.variant, "n": n, "len": l, "history": hist, "fault": [0, k]}),
+                            });
+                        }
+                    }
+                    if !fired {
+                        break;
+                    }
+                }
+            }
+            // fill ; stream or fill with its k-th operation failing ; RAMWR ; fill - state cached by the first fill
+            // that the aborted call did not get to invalidate
+            let cap = l / n;
+            let pick = |cs: &[u32]| -> Vec<TCall> {
+                reps.iter().filter(|c| matches!(c, TCall::Repeat { count, .. } if cs.contains(count))).map(|c| (*c).clone()).collect()
+            };
+            let firsts = pick(&[1, cap as u32, cap as u32 + 1]);
+            let lasts = pick(&[1, cap as u32, cap as u32 + 1, 2 * cap as u32 + 1]);
+            let mids: Vec<TCall> = mixed
+                .iter()
+                .cloned()
+                .chain(a0.iter().filter(|c| matches!(c, TCall::Pixels { words, .. } if [1, cap, cap + 1, 2 * cap + 1].contains(&(words.len() / n)))).cloned())
+                .chain(pick(&[1, cap as u32 + 1]))
+                .collect();
+            for a in &firsts {
+                for b in &mids {
+                    for k in 0..64u64 {
+                        let mut fired = false;
+                        for c in &lasts {
+                            let hist = [a.clone(), b.clone(), rec.clone(), c.clone()];
+                            acc.evaluations += 1;
+                            acc.transitions += 4;
+                            acc.traces += 1;
+                            let o = run_history_fault(n, l, &hist, Some((1, k)));
+                            if !o.fired {
+                                break;
+                            }
+                            fired = true;
+                            acc.nontrivial += 1;
+                            acc.count("fill_failed_call_fill_histories", 1);
+                            if let Some((sig, msg)) = o.fail {
+                                acc.violation(Violation {
+                                    prop: ctx.prop.clone(),
+                                    sig,
+                                    msg,
+                                    case: json!({"kind": "c06", "variant": ctx.variant, "n": n, "len": l, "history": hist, "fault": [1, k]}),
+                                });
+                            }
+                        }
+                        if !fired {
+                            break;
+                        }
+                    }
+                }
+            }
             acc.states += 1;
             if l == 2 * n + 1 {
                 acc.sample(json!({"n": n, "len": l, "history": [a0[3], a1[25], a2[a2.len() - 1]]}));
@@ -309,6 +428,8 @@ fn run(ctx: &Ctx) -> Part {
         "extreme_counts": "send_repeated_pixel with count*N >= 2^32 bytes, run to completion in counting mode (byte total and periodic content checked)"});
     let mut part = Part::new(ctx, acc, bounds, true, t0.elapsed().as_secs_f64());
     part.require("fill_stream_fill_triples", 100);
+    part.require("post_fault_histories", 1000);
+    part.require("fill_failed_call_fill_histories", 1000);
     part
 }
 
@@ -332,7 +453,11 @@ pub fn replay(case: &serde_json::Value) -> i32 {
     let l = case["len"].as_u64().unwrap() as usize;
     let hist: Vec<TCall> = serde_json::from_value(case["history"].clone()).unwrap();
     println!("SpiInterface with N={n}, buffer length {l}, history {hist:?}");
-    let o = run_history(n, l, &hist);
+    let fault: Option<(usize, u64)> = case.get("fault").and_then(|f| serde_json::from_value(f.clone()).ok());
+    if let Some((i, k)) = fault {
+        println!("low-level operation {k} of call #{i} fails once");
+    }
+    let o = run_history_fault(n, l, &hist, fault);
     println!("transactions per call {:?}, bytes per call {:?}", o.txns, o.bytes);
     match o.fail {
         Some((sig, msg)) => {
